@@ -268,6 +268,7 @@ struct Opt {
   bool expert = true;
   int explicit_att = -1;   // attribute quantised with SetAttributeExplicitQuantization(bits, explicit_dims < components, origin, range)
   int explicit_dims = 0;
+  float explicit_origin = -3000.f, explicit_range = 8000.f;
 };
 
 inline Opt gen_options(vrt::Rng &r, const Geom &g) {
@@ -316,7 +317,7 @@ inline Encoded encode(const Geom &g, const Opt &o) {
     enc->SetUseBuiltInAttributeCompression(o.builtin);
     if (o.split >= 0) enc->options().SetGlobalBool("split_mesh_on_seams", o.split != 0);
     for (int a = 0; a < (int)o.qbits.size(); ++a) {
-      if (a == o.explicit_att) { const float origin[4] = {-3000.f, -3000.f, -3000.f, -3000.f}; enc->SetAttributeExplicitQuantization(a, std::max(8, o.qbits[a]), o.explicit_dims, origin, 8000.f); }
+      if (a == o.explicit_att) { const float origin[4] = {o.explicit_origin, o.explicit_origin, o.explicit_origin, o.explicit_origin}; enc->SetAttributeExplicitQuantization(a, std::max(8, o.qbits[a]), o.explicit_dims, origin, o.explicit_range); }
       else if (o.qbits[a] > 0) enc->SetAttributeQuantization(a, o.qbits[a]);
       else enc->options().SetAttributeInt(a, "quantization_bits", -1);
       if (o.pred != -100) enc->SetAttributePredictionScheme(a, o.pred);
@@ -460,20 +461,29 @@ template <class T> inline std::string jarr(const std::vector<T> &v) {
 
 // structural-validity facts of a decoded geometry, read through public accessors only
 inline std::string struct_json(const PointCloud &pc, bool is_mesh) {
+  // TLC integers are 32-bit: counts above 2^30 (a stream may declare 2^31 points and no attribute) are compressed by a map that keeps every
+  // order relation StructValid evaluates (maxface < np, maxmap < size, size >= np) -- values are only ever compared, never added, at that scale.
+  const long CAP = 1L << 30;
+  const long np_real = pc.num_points();
+  const long np = std::min(np_real, CAP);
+  auto rel_np = [&](long x) { return x < np_real ? std::min(x, np - 1) : (x == np_real ? np : std::min(x, CAP + 1)); };
   long maxface = -1;
   if (is_mesh) {
     const Mesh &m = static_cast<const Mesh &>(pc);
     for (FaceIndex i(0); i < m.num_faces(); ++i) for (int k = 0; k < 3; ++k) maxface = std::max<long>(maxface, m.face(i)[k].value());
   }
-  std::string s = "{\"np\":" + std::to_string(pc.num_points()) + ",\"nf\":" + std::to_string(is_mesh ? static_cast<const Mesh &>(pc).num_faces() : 0) +
-                  ",\"maxface\":" + std::to_string(maxface) + ",\"atts\":[";
+  std::string s = "{\"np\":" + std::to_string(np) + ",\"nf\":" + std::to_string(is_mesh ? std::min<long>(static_cast<const Mesh &>(pc).num_faces(), CAP) : 0) +
+                  ",\"maxface\":" + std::to_string(rel_np(maxface)) + ",\"atts\":[";
   for (int a = 0; a < pc.num_attributes(); ++a) {
     const PointAttribute *att = pc.attribute(a);
     long maxmap = -1;
     if (!att->is_mapping_identity()) for (PointIndex p(0); p < pc.num_points(); ++p) maxmap = std::max<long>(maxmap, att->mapped_index(p).value());
-    const long bufbytes = att->buffer() ? (long)att->buffer()->data_size() : 0;
+    const long size_real = (long)att->size();
+    const long size = size_real <= CAP && np_real <= CAP ? size_real : rel_np(size_real);
+    const long maxmap_c = maxmap < size_real ? std::min(maxmap, size - 1) : size;
+    const long bufbytes = std::min<long>(att->buffer() ? (long)att->buffer()->data_size() : 0, CAP);
     if (a) s += ",";
-    s += "[" + std::to_string(att->size()) + "," + std::to_string(maxmap) + "," + std::to_string(bufbytes) + "," + std::to_string((int)att->num_components()) + "," +
+    s += "[" + std::to_string(size) + "," + std::to_string(maxmap_c) + "," + std::to_string(bufbytes) + "," + std::to_string((int)att->num_components()) + "," +
          std::to_string(DataTypeLength(att->data_type())) + "," + (att->is_mapping_identity() ? "1" : "0") + "," + std::to_string((long)att->byte_stride()) + "," +
          std::to_string((long)att->byte_offset()) + "]";
   }
